@@ -302,7 +302,17 @@ C20 = Spec('C20',
     explanation='hash_events (Sem/HashEq.v) is a prefix code of the constructor data; correspondence of the recorded typed hasher stream (Cached digests masked) ties it to the code; chk_C20_pair: different source/buffer/map() implies different hash stream and ==false',
     checker_name='ChkHist.chk_C20_pair', model_name='Sem/HashEq.v')
 
-REGISTRY = {'C12': C12, 'C16': C16, 'C01': C01, 'C05': C05, 'C10': C10, 'C13': C13, 'C14': C14, 'C20': C20, 'C02': C02, 'C03': C03, 'C07': C07, 'C08': C08, 'C11': C11}
+def gen_c04(rng, tier):
+    n = 2500 if tier == 'quick' else 100000
+    cfgs = [gen_tree.Cfg(ascii=True, sms=0.0, cached_under_replace=False),
+            gen_tree.Cfg(ascii=True, sms=0.0, replace=0.45, cached=0.05, cached_under_replace=False),
+            gen_tree.Cfg(ascii=True, sms=0.0, replace=0.0, cached=0.2)]
+    return [gen_tree.gen_tree_case(rng, cfgs[i % len(cfgs)]) for i in range(n)]
+
+C04 = tree_spec('C04', ['src', 'm1', 'm0'], gen_c04, 'ChkProv.chk_C04',
+    'independent provenance semantics Sem/Prov.v (no chunks, no tokens): chk_C04 checks every mapped segment of map(), every surviving original byte, raw bytes, statement starts, the sources/sourcesContent tables and the line attribution with columns=false against it')
+
+REGISTRY = {'C04': C04, 'C12': C12, 'C16': C16, 'C01': C01, 'C05': C05, 'C10': C10, 'C13': C13, 'C14': C14, 'C20': C20, 'C02': C02, 'C03': C03, 'C07': C07, 'C08': C08, 'C11': C11}
 
 def get(pid):
     return REGISTRY[pid]
